@@ -217,5 +217,19 @@ CLAIMS['C08'] = {
   'note': _TB + 'The clause "the digits shown equal the value rounded to the field\'s decimal places" is NOT covered (Float.to_str_fixed/to_str_scientific/to_decimal are replaced by an arbitrary digit string). Field specifications, digit-string lengths and string lengths are case parameters.',
 }
 
+CLAIMS['C07'] = {
+  'text': 'PROVED: the literal-reading clause - numbers.str_to_decimal on literals of 16 shapes (digit counts before/after the point, sign, E/D exponent with sign and digits, ! and # sigils) with symbolic digit values returns the mantissa spelled by the digits, exponent = written exponent - fraction digits, and double exactly for a D exponent, a # sigil or more than 7 significant digits without !; Values.from_repr gives an Integer with exactly the value for integer literals in range and otherwise a Single/Double built from exactly those digits; a zero mantissa reads as zero for every exponent (defect found and repaired: VAL("0E5") was 1.469368E-34); Integer.to_str shows every Integer exactly. BOUNDED ONLY, never counted as proved: the two accuracy clauses (shown value within one unit of the last digit shown and at most 7/16 digits; stored value within one unit in the last binary place) are sampled natively against exact rational arithmetic (3000 quick / 60000 thorough values per type and direction).',
+  'note': _TB + 'The conversion loops (Float.to_decimal / from_decimal / _div10_den / _mul10_den) have no invariant in this framework: their accuracy is NOT proved, only sampled. Literal shapes are case parameters.',
+}
+
 NOT_APPLICABLE = {
+  'C17': 'not applicable to this technique: the tokenise/list round trip runs through two hand-written stream parsers; correctness is a grammar-level induction over token sequences with mode flags - no per-function contract short of a formal grammar of GW-BASIC lines expresses it, and the string/stream loops stay undecided in z3 and cvc5 (DESIGN.md section 4)',
+  'C22': 'not applicable to this technique: the DATA pointer walks the tokenised program with skip_to_token/read_to/read_string; the property is about that scan over arbitrary programs, only restore_ (a dictionary lookup) is contract-sized (DESIGN.md section 4)',
+  'C24': 'not applicable to this technique: WRITE#/INPUT# round trip through InputMixin.input_entry, a character state machine over a stream with read-ahead, CR/LF folding and quoting; an inductive proof over all item sequences is out of reach and a bounded stand-in alone would not be this family\'s result (DESIGN.md section 4)',
+  'C27': 'not applicable to this technique: decided by ntpath/os.path string functions and look-ups in the host file system; sound only relative to contracts on those library functions over unbounded strings (split/replace chains stay undecided in both solvers); the property\'s own hook is run-time monitoring, a different family (DESIGN.md section 4)',
+  'C28': 'not applicable to this technique: same code as C27 plus re-based wildcard matching and host directory state; the pure helpers need upper()/strip()/character-set reasoning over unbounded strings, CrossHair as stand-in failed to refute a false postcondition (DESIGN.md section 4)',
+  'C32': 'not applicable to this technique: correctness of a scan-line flood fill is a reachability (4-connectivity) property of a 2-D bitmap needing an inductive invariant over pixel sets and the work queue - a research-size proof, not a contract the installed tools discharge (that PAINT stays inside the viewport is covered by C30) (DESIGN.md section 4)',
+  'C35': 'not applicable to this technique: a protocol property between the signal emitter and a reference consumer in an interface plug-in over whole histories; no single-function contract carries it (DESIGN.md section 4)',
+  'C42': 'not applicable to this technique: IEEE floating-point durations/frequencies, a macro-language stream parser and an asynchronous timed queue; floats are outside the verifier\'s integer/sequence fragment (DESIGN.md section 4)',
+  'C43': 'not applicable to this technique: the integer slice is discharged under C03; floats go through math.log and float multiplication, strings through the codepage tables (C41\'s unclaimed clauses), arrays through recursive list comprehensions - a claim for the integer slice alone would misrepresent the property (DESIGN.md section 4)',
 }
